@@ -771,8 +771,9 @@ orc_x86_insn_output_asm (OrcCompiler *p, OrcX86Insn *xinsn)
   }
 
   if (xinsn->prefix == ORC_X86_AVX_VEX128_PREFIX || xinsn->prefix == ORC_X86_AVX_VEX256_PREFIX) {
+    /* AT&T order: the blend mask (is4 operand) comes first */
     ORC_ASM_CODE(p,"  v%s %s%s%s%s%s\n", xinsn->opcode->name,
-        imm_str, src_op, src_2nd_op, src_3rd_op, dst_op);
+        imm_str, src_3rd_op, src_op, src_2nd_op, dst_op);
   } else {
     ORC_ASM_CODE(p,"  %s %s%s%s\n", xinsn->opcode->name,
         imm_str, src_op, dst_op);
